@@ -1416,7 +1416,14 @@ class Interp:
         if k in ('PWild', 'PRest'):
             return TRUE
         if k == 'PPath':
-            return self.is_cond(scrut, self.resolve(pat['path']['segs']))
+            p_ = self.resolve(pat['path']['segs'])
+            # a named constant in pattern position (`(ScalarKind::Bool, naga::BOOL_WIDTH) => ..`) compares with its value
+            ce = self.c.consts.get(p_, {}).get('expr') if p_ in self.c.consts else None
+            if ce is None and p_.startswith(('naga::', 'wgpu::')) and p_.count('::') == 1 and p_.rsplit('::', 1)[-1].isupper():
+                ce = self.library_consts().get(p_)
+            if isinstance(ce, dict) and ce.get('k') == 'Lit':
+                return ('eq', scrut, self.lit(ce))
+            return self.is_cond(scrut, p_)
         if k == 'PTupleStruct':
             v = self.resolve(pat['path']['segs'])
             conds = [('is', scrut, v)]
